@@ -107,3 +107,16 @@ Theorem c08_chain_expression_has_the_written_methods : forall o base,
   MethodsP.vmethods (apply_ops base o) = MethodsP.vmethods base + MethodsP.fop_methods o.
 Proof. exact MethodsP.vmethods_apply_ops. Qed.
 Print Assumptions c08_chain_expression_has_the_written_methods.
+
+(* recorded finding C08-accept-everything-patterns-evaluate-nothing, as the model has it: a chain in front of a pattern that asserts
+   nothing is not evaluated (0 calls of the written method), and `_ { .. }` / `#{ .. }` at the root do not evaluate the root *)
+Lemma known_c08_chain_under_wildcard_not_evaluated :
+  let bump := OChained SCall [ONamed "h" SCall SCall; OMethod "bump" SCall SCall []] in
+  let s := expand true (PStruct 0 (Some (pth "S")) true [(bump, PWild 1)]) (VRoot []) in
+  MethodsP.sites s = 0 /\
+  option_map (fun rt => (fst rt, cnt MethodsP.is_method_ev (snd rt))) (exec s (env0 (VStructV "S" [("h", VInt 5)]) [])) = Some ([], 0).
+Proof. vm_compute. split; reflexivity. Qed.
+Lemma known_c08_root_wildcard_struct_and_open_map_not_evaluated :
+  roots (exec_top true (PStruct 0 None true []) [] (env0 (VStructV "S" []) [])) = Some 0 /\
+  roots (exec_top true (PMap 0 SCall true []) [] (env0 (VMapV []) [])) = Some 0.
+Proof. vm_compute. split; reflexivity. Qed.
